@@ -644,8 +644,10 @@ class TemplateASTTransformer(ASTTransformer):
 
     # Only used in Python 3.5+
     def visit_Starred(self, node):
-        node.value = self.visit(node.value)
-        return node
+        # build a new node: the tree that was handed in (kept as ``Code.ast``
+        # and searched for gettext calls by the i18n extraction) stays as it
+        # was parsed
+        return _new(_ast.Starred, self.visit(node.value), node.ctx)
 
     def visit_Name(self, node):
         if node.id in ('super', '__class__') and \
